@@ -72,6 +72,19 @@ def main():
         print("check rc=%d detected=%s %s" % (c.returncode, meta["detected"], viol[0][:200] if viol else ""))
         if c.returncode == 2:
             print(c.stdout[-1500:])
+        if c.returncode == 0 and "--thorough" in sys.argv:
+            budget = sys.argv[sys.argv.index("--thorough") + 1]
+            t0 = time.time()
+            c = run([os.path.join(HERE, "check"), prop, "--tier", "thorough", "--budget", budget, "--repo", repo,
+                     "--no-evidence", "--replay-dir", os.path.join(d, "replays")])
+            viol = [ln for ln in c.stdout.splitlines() if ln.startswith("violation:")]
+            meta["quick_detected"] = False
+            meta["check_cmd"] = "./check %s --tier thorough --budget %s --repo <scratch copy with the change> (the quick tier did not detect it)" % (prop, budget)
+            meta["check_rc"] = c.returncode
+            meta["detected"] = c.returncode == 1 and ("VIOLATION property=%s" % prop) in c.stdout
+            meta["check_first_violations"] = [v[:400] for v in viol[:3]]
+            meta["check_wall_s"] = round(time.time() - t0, 1)
+            print("thorough: rc=%d detected=%s %s" % (c.returncode, meta["detected"], viol[0][:200] if viol else ""))
         rp = [ln.split("replay=")[1] for ln in c.stdout.splitlines() if ln.startswith("VIOLATION")]
         out = os.path.join(HERE, "seeded", sid)
         os.makedirs(out, exist_ok=True)
